@@ -44,7 +44,8 @@ CLAIMED = {
              "page layer: from ANY writer state (any earlier content, any cursor residue modulo 1020, any number of pages) and for ANY blob length "
              "0..5000 and content, z3 decides that the stream becomes old stream + 16-byte header + payload + zero padding with nothing else disturbed, "
              "that the descriptor is (physical start, length), and on the read side, for ANY device content/validity and ANY descriptor, that Ok(m) "
-             "implies m = length and the bytes are exactly the logical stream from valid pages; no panic on any path.",
+             "implies m = length and the bytes are exactly the logical stream from valid pages; the public entry E57Reader::blob is additionally shown complete "
+             "(a well-formed section inside the file on valid pages is delivered wherever it lies); no panic on any path.",
         note="The page layer is represented by its contracts, which C11 decides on the real PagedWriter/PagedReader MIR (assume-guarantee). Trusted: "
              "mirsym interpreter + std models (io::copy, Take, read_exact, write_all), z3. Image and mask descriptors are decided on the in-memory Image values (ImageWriter MIR); XML is outside.",
         technique="symbolic execution of rustc MIR into SMT (z3) from arbitrary abstract states, per-path claims, native replay of counterexamples",
@@ -100,7 +101,7 @@ CLAIMED = {
              "in-range values; an independent decoder walks the produced section and must find, per attribute, exactly the specified bit stream (value - min, w bits, LSB first; floats LE) "
              "and the right descriptor; (reader) QueueReader::advance over ANY packet bytes decodes a data packet into exactly the specified values; the bit codec itself is decided by Kani "
              "for widths 0..64 x phases (C12).",
-        note="Prototype shapes are concrete (3 shapes: widths 0,1,11,33,64, single, double, scaled); 1 point per run in quick. XML transport of the prototype, E57Writer/E57Reader glue and the composition "
+        note="Prototype shapes are concrete (5 shapes incl. an all-constant one: widths 0,1,11,33,64, single, double, scaled); 1 point per run in quick. XML transport of the prototype, E57Writer/E57Reader glue and the composition "
              "of the two halves are outside the solver. Known finding: all-constant prototypes do not round trip.",
         technique="symbolic execution of rustc MIR into SMT (z3) with an independent section decoder; Kani for the bit codec",
         ref="§6 C01"),
@@ -122,7 +123,8 @@ CLAIMED = {
         engine="mirsym",
         text="Bounded-resource form decided per call on every symbolic path: every allocation size is bounded by a packet (65536 B) or the 10 MiB XML cap, and every call finishes within the "
              "executor's step budget; a satisfiable path exceeding it is reported as unbounded work and replayed natively under a time/memory limit.",
-        note="Covers QueueReader::advance (incl. all-constant prototypes), extract_xml, Blob::read. The XML parser's own resource use and the iterator-level record bound are not executed.",
+        note="Covers QueueReader::advance (incl. all-constant prototypes), extract_xml, Blob::read (also with an unbounded declared length: every allocation <= 4 x device size + 1 MiB, natively observed through VmPeak), "
+             "and the record bound of the raw iterator. The XML parser's own resource use is not executed.",
         technique="symbolic execution of rustc MIR into SMT (z3) with allocation-size claims and a step budget",
         ref="§6 C09"),
     "C10": dict(
@@ -145,7 +147,8 @@ CLAIMED = {
              "(documented formulas bit-exactly, trigonometric functions uninterpreted; historical atan2-argument swap is caught and replayed natively), quaternion -> rotation matrix, and pop_point "
              "for four attribute sets with any raw values (validity from the invalid-state attribute, failure exactly outside the documented set, scaled integers, absent-when-flagged, row/column defaults, "
              "normalisation switches).",
-        note="Iterator::next bookkeeping (count/order equal to the raw iterator, switches per batch) is NOT covered. Division inside normalisation is uninterpreted here (value properties: C13). "
+        note="Iterator bookkeeping is covered as one inductive step (2-3 buffered points, symbolic read < records: oldest first, one count per point, None exactly at records; all settings of the four "
+             "post-processing switches in the thorough tier); larger batches and mid-batch refills are outside the bound. Division inside normalisation is uninterpreted here (value properties: C13). "
              "Counterexamples are replayed natively (conversions with the platform libm).",
         technique="symbolic execution of rustc MIR into SMT (z3) with uninterpreted libm functions",
         ref="§6 C05"),
